@@ -683,6 +683,28 @@ def numpy_ufunc_at_ignores_readonly():
     return bool(a[0] == 7.)
 
 
+def ufunc_at_probe():
+    """The route of the open known finding C07-K1, exercised on every run: np.<ufunc>.at through the
+    handles a field gives out (and through its source array).  Returns the list of (handle, ufunc)
+    pairs that changed the field (empty when NumPy enforces flags.writeable for ufunc.at)."""
+    import nifty.cl as ift
+    dom = ift.RGSpace(3)
+    changed = []
+    for hname in ("source", "raw", "asnumpy", "val.val", "val"):
+        for uname in ("add", "multiply", "subtract", "maximum"):
+            src = np.array([1., 2., 3.])
+            f = ift.Field.from_raw(dom, src)
+            birth = f.raw.tolist()
+            h = {"source": src, "raw": f.raw, "asnumpy": f.asnumpy(), "val.val": f.val.val, "val": f.val}[hname]
+            try:
+                getattr(np, uname).at(h, 0, 7.)
+            except Exception:
+                pass
+            if f.raw.tolist() != birth:
+                changed.append([hname, uname])
+    return changed
+
+
 def run_grid(ctx_dir, only=None):
     out = []
     for name, n, fail in source_grid(ctx_dir):
@@ -703,7 +725,7 @@ class C07(C.Check):
     assumptions = [
         "excluded: the user sets ndarray.flags.writeable = True by hand",
         "excluded: handles reached through ndarray.base",
-        "excluded: NumPy write routes that ignore flags.writeable (ufunc.at in NumPy 2.5.3 writes through read-only arrays: np.add.at(f.raw, 0, 1) changes a field; a NumPy defect no wrapper can prevent; measured every run, see coverage.numpy_ufunc_at_ignores_readonly)",
+        "open known finding C07-K1, outside the model's vocabulary (no ufunc.at op): NumPy's ufunc.at ignores flags.writeable (NumPy 2.5.3), so np.add.at(f.raw, 0, 1) changes a field; exercised by the oracle on every run and reported as KNOWN-FINDING while it reproduces",
         "caller-side precondition (adm_run): when a field is built from a caller-supplied array, the caller holds no other writeable ndarray object on the same memory (e.g. a view made earlier, or the base of which the source is a view) -- NumPy gives a wrapper no way to revoke those",
     ]
 
@@ -785,7 +807,15 @@ class C07(C.Check):
                                 {"kind": "grid", "name": name})
         res.coverage["source_grid_cases"] = ngrid
         res.coverage["numpy_ufunc_at_ignores_readonly"] = numpy_ufunc_at_ignores_readonly()
-        if budget > 1 and not res.failing:
+        ch = ufunc_at_probe()
+        n += 20
+        res.coverage["ufunc_at_routes_that_change_a_field"] = ch
+        if ch:
+            # open known finding C07-K1 (signature route = ufunc.at); anything else stays a VIOLATION
+            res.add_failing({"route": "ufunc.at"},
+                            "np.%s.at through %s changed a field (NumPy's ufunc.at ignores flags.writeable)" % (ch[0][1], ch[0][0]),
+                            {"kind": "ufunc_at"})
+        if budget > 1 and not [x for x in res.failing if x["signature"].get("route") != "ufunc.at"]:
             rng = ctx.rng(99)
             for i in range(1500):
                 L = int(rng.integers(1, 4))
@@ -803,6 +833,8 @@ class C07(C.Check):
         i = rp["input"]
         if i["kind"] == "history":
             return run_history(i["L"], i["ops"])[1] is not None
+        if i["kind"] == "ufunc_at":
+            return bool(ufunc_at_probe())
         if i["kind"] == "grid":
             r = run_grid(ctx.run_dir(), only=i["name"])
             if not r:
